@@ -358,6 +358,13 @@ struct WL {
         if (with_throw) {
             gsim::enable_fault(gsim::F_THROW, 150 + gsim::knob("throw", 0, 2) * 150);
         }
+        // address diversity: the object's address decides e.g. which of libstdc++'s pooled
+        // mutexes a std::atomic_load/atomic_store(shared_ptr*) would take
+        {
+            int pad = gsim::knob("pad", 0, 255);
+            static void* volatile sink;
+            for (int i = 0; i < pad; i++) sink = ::operator new(16);  // arena memory, reclaimed with the run
+        }
         cow = new COW();
         st.throw_copy = with_throw;
         if (freeze) run_freeze();
